@@ -297,12 +297,20 @@ func (privVal *PrivValidator) signBytesHRS(height, round int64, step int8, signB
 	signature := privVal.Sign(signBytes)
 
 	// Persist height/round/step
+	prevHeight, prevRound, prevStep := privVal.LastHeight, privVal.LastRound, privVal.LastStep
+	prevSignature, prevSignBytes := privVal.LastSignature, privVal.LastSignBytes
 	privVal.LastHeight = height
 	privVal.LastRound = round
 	privVal.LastStep = step
 	privVal.LastSignature = signature
 	privVal.LastSignBytes = signBytes
-	privVal.save()
+	if err := privVal.save(); err != nil {
+		// The record that forbids contradicting this signature is not durable:
+		// do not release the signature, and forget it in memory as well.
+		privVal.LastHeight, privVal.LastRound, privVal.LastStep = prevHeight, prevRound, prevStep
+		privVal.LastSignature, privVal.LastSignBytes = prevSignature, prevSignBytes
+		return nil, err
+	}
 
 	return signature, nil
 
